@@ -253,6 +253,7 @@ NamePos ==
                                                                    NR(3, 1, 32770, 3, NameStrs3[3])>> IN
        <<[recs |-> recs, tags |-> <<NTag1>>], [recs |-> recs, tags |-> <<<<>>, NTag2>>], [recs |-> recs, tags |-> <<NTag1, <<>>>>],
          [recs |-> recs, tags |-> <<NTag1, NTag2, <<0, 102>>>>], [recs |-> recs, tags |-> <<<<>>>>]>>])
+  \o <<[recs |-> NameRec3(<<<<>>, <<>>, <<>>>>), tags |-> <<>>], [recs |-> NameRec3(<<<<>>, <<>>, <<>>>>), tags |-> <<NTag1, NTag2>>]>>
 
 \* -- cmap format 4: the binary-search header depends on the segment count (every count up to 17, the
 \* neighbours of the powers of two); the segment that maps through glyphIdArray (idRangeOffset # 0) is
@@ -303,7 +304,7 @@ GlyphInstrPos ==
      LET fs == [i \in 1 .. n |-> 2 + (IF Bit(m1 - 1, i) THEN 256 ELSE 0)] IN
      IF m1 = 1 THEN <<GCf(fs, <<>>)>> ELSE <<GCf(fs, <<64, 65, 66>>), GCf(fs, <<>>)>>])])
 GlyphCompPos ==
-  Cat([n1 \in 1 .. 2 |-> LET n == n1 + 1 IN
+  Cat([n \in 1 .. 3 |->
         Cat([p \in 1 .. n |-> [k \in 1 .. 3 |-> GCf([i \in 1 .. n |-> 3 + (IF i = p THEN Scales[k] ELSE 0)], <<>>)]])])
   \o [r \in 1 .. 3 |-> GCf([i \in 1 .. 3 |-> 2 + Scales[((i + r) % 3) + 1]], <<>>)]
   \o Cat([p \in 1 .. 3 |-> [w \in 1 .. 4 |-> GCf([i \in 1 .. 3 |-> IF i = p THEN w - 1 ELSE (IF w = 3 THEN 3 ELSE 2)], <<>>)]])
@@ -446,7 +447,7 @@ DictPos ==
        DV("priv", <<E(6, <<Rl(<<31>>), I(20), I(450), Rl(<<226, 162, 95>>)>>), E(9, <<Rl(<<10, 20, 5, 65, 63>>)>>)>>, 1)>>
 
 \* INDEX: the empty object first / last / everywhere, also next to the offSize 1 / 2 edge
-IndexPosLens == <<<<0, 3, 2>>, <<3, 2, 0>>, <<0, 3, 0>>, <<0, 0>>, <<0, 0, 0>>, <<0, 254>>, <<254, 0>>, <<0, 255>>, <<255, 0>>, <<1, 1, 1, 1>>>>
+IndexPosLens == <<<<0, 3, 2>>, <<3, 2, 0>>, <<0, 3, 0>>, <<0, 0>>, <<0, 0, 0>>, <<0, 254>>, <<254, 0>>, <<0, 255>>, <<255, 0>>, <<1, 1, 1, 1>>, <<0, 256>>, <<256, 0>>>>
 IndexPos == Cat([c \in 1 .. 2 |-> Cat([i \in 1 .. Len(IndexPosLens) |->
               LET mn == MinOffSize(1 + SumSeq(IndexPosLens[i])) IN
               <<IV(IndexPosLens[i], mn, c = 2), IV(IndexPosLens[i], mn + 1, c = 2)>>])])
@@ -476,7 +477,7 @@ FdSelectPos ==
     [fmt |-> 3, ranges |-> <<<<0, 0>>, <<5, 255>>, <<7, 0>>>>, sentinel |-> 8], [fmt |-> 3, ranges |-> <<<<0, 7>>>>, sentinel |-> 65535],
     [fmt |-> 3, ranges |-> <<<<0, 0>>, <<65534, 1>>>>, sentinel |-> 65535],
     [fmt |-> 0, fds |-> <<1, 0, 0, 0>>], [fmt |-> 0, fds |-> <<0, 1, 0, 0>>], [fmt |-> 0, fds |-> <<0, 0, 0, 1>>],
-    [fmt |-> 0, fds |-> <<255, 0, 0>>], [fmt |-> 0, fds |-> <<0, 0, 255>>], [fmt |-> 0, fds |-> <<7>>]>>
+    [fmt |-> 0, fds |-> <<0, 0, 1, 1>>], [fmt |-> 0, fds |-> <<255, 0, 0>>], [fmt |-> 0, fds |-> <<0, 0, 255>>], [fmt |-> 0, fds |-> <<7>>]>>
 
 \* item variation store: every word-delta count 0 .. n of n = 3 regions, short and long words; the long /
 \* the empty sub-table first / in the middle / last
